@@ -1,8 +1,11 @@
 #!/usr/bin/env python3
 
 import logging
+import os
 import re
+import secrets
 import sys
+from contextlib import contextmanager
 from functools import cached_property
 from io import BytesIO
 from pathlib import Path
@@ -18,6 +21,24 @@ from tola.fasta.simple import FastaSeq, revcomp_bytes_io
 
 class IndexUsageError(Exception):
     """Unexpected usage of FastaIndex"""
+
+
+@contextmanager
+def atomic_write(path: Path):
+    """
+    Yields a file handle to a new temporary file alongside `path`, which is
+    renamed to `path` once it has been completely written and closed. Other
+    processes never see a partially written `path`, and an interrupted run
+    cannot leave one behind.
+    """
+    tmp = path.with_name(f"{path.name}.{secrets.token_hex(8)}.tmp")
+    try:
+        with tmp.open("x") as fh:
+            yield fh
+        os.replace(tmp, path)
+    except BaseException:
+        tmp.unlink(missing_ok=True)
+        raise
 
 
 class FastaInfo:
@@ -133,7 +154,7 @@ class FastaIndex:
             raise IndexUsageError(msg)
         if self.fai_file.exists():
             logging.warning(f"Overwriting FAI index file '{self.fai_file}'")
-        with self.fai_file.open("w") as idx_fh:
+        with atomic_write(self.fai_file) as idx_fh:
             for name, info in idx_dict.items():
                 idx_fh.write(info.fai_row(name))
 
@@ -150,7 +171,7 @@ class FastaIndex:
             raise IndexUsageError(msg)
         if self.agp_file.exists():
             logging.warning(f"Overwriting AGP assembly file '{self.agp_file}'")
-        with self.agp_file.open("w") as agp_fh:
+        with atomic_write(self.agp_file) as agp_fh:
             format_agp(asm, agp_fh)
 
     def run_indexing(self):
